@@ -115,7 +115,7 @@ func run(c *lib.Ctx) error {
 
 	// ---- M
 	nM := c.Pick(3, 5)
-	rm, err := c.TLC("MCSmartEnter", lib.TLCRun{Dir: dir, Module: "MCSmartEnter", Workers: 1, Timeout: 5 * time.Minute,
+	rm, err := syn.TLC(c, "MCSmartEnter", lib.TLCRun{Dir: dir, Module: "MCSmartEnter", Workers: 1, Timeout: 5 * time.Minute,
 		Files: map[string][]byte{"MCSmartEnter.cfg": []byte(fmt.Sprintf("CONSTANT N = %d\nINIT Init\nNEXT Next\nINVARIANT PartialAtEnd\nINVARIANT PrefixPartial\nINVARIANT KeepsReading\nINVARIANT Rule\n", nM))}})
 	if err != nil {
 		return err
@@ -134,10 +134,10 @@ func run(c *lib.Ctx) error {
 	var e1, e2 error
 	var wg sync.WaitGroup
 	wg.Add(2)
-	go func() { defer wg.Done(); ex, e1 = syn.Expand(c, "ElvSyntax-exhaustive", exD, exS, 0, 10*time.Minute) }()
+	go func() { defer wg.Done(); ex, e1 = syn.Expand(c, "ElvSyntax-exhaustive", exD, exS, 0, 30*time.Minute) }()
 	go func() {
 		defer wg.Done()
-		sim, e2 = syn.Expand(c, "ElvSyntax-simulate", simD, simS, simN, 10*time.Minute)
+		sim, e2 = syn.Expand(c, "ElvSyntax-simulate", simD, simS, simN, 30*time.Minute)
 	}()
 	wg.Wait()
 	if e1 != nil {
@@ -228,7 +228,7 @@ func run(c *lib.Ctx) error {
 	cases := make([]pcase, len(pres))
 	var recErr error
 	var mu sync.Mutex
-	lib.Parallel(len(pres), 6, func(i int) {
+	lib.Parallel(len(pres), 4, func(i int) {
 		var a *area
 		if i%areaEvery == 0 {
 			a = ar
@@ -277,7 +277,7 @@ func run(c *lib.Ctx) error {
 		"enter_inserts_newline": newlines, "driven_through_real_code_area": driven})
 	c.Logf("%d distinct prefixes (%d with errors, %d clean), %d other texts, %d driven through the real code area", nPrefix, withErr, clean, others, driven)
 
-	bad, err := lib.Judge(c, "JudgeSmartEnter", dir, "JudgeSmartEnter", cases, 6, 12*time.Minute)
+	bad, err := lib.Judge(c, "JudgeSmartEnter", dir, "JudgeSmartEnter", cases, 4, 30*time.Minute)
 	if err != nil {
 		return err
 	}
